@@ -91,12 +91,14 @@ def fold(text, nfolds, fold_boundaries=None):
         a list of index positions for text unfolding
 
     """
+    # check the number of folds (raises a ValueError), and compute the
+    # boundaries if not specified in arguments
+    default_boundaries = boundaries(text, nfolds)
+    if fold_boundaries is None:
+        fold_boundaries = default_boundaries
+
     if nfolds == 1:
         return [text], [0]
-
-    # compute boundaries if not specified in arguments
-    if fold_boundaries is None:
-        fold_boundaries = boundaries(text, nfolds)
 
     # create data blocks from boundaries
     b = fold_boundaries
